@@ -234,8 +234,11 @@ def run(chk):
             if n_lad_ok != n_lad:
                 chk.tie_broken("translation-validation:ladder", f"generated topo_ints disagrees with the executed source on {n_lad - n_lad_ok} of {n_lad} size vectors")
     # ---------------- E: grid files of the corpus
-    from props import c08_grid
+    from props import c08_grid, c01
     ngrid = c08_grid.run(chk)
+    # the corners that the branch-cut integers place at an X-point are pinned there by the regions' X-point bookkeeping: on real equilibria of every topology each pin
+    # must be an X-point ON the flux surface of that radial boundary (C01's pin oracle, also needed when a wrong pin makes the mesh refuse to generate)
+    ngrid += c01.pin_oracle(chk)
     chk.count(evaluations=n_eq + n_lad + ngrid, distinct=n_eq + n_lad_ok + ngrid)
     chk.cov["rule"] = ("real equilibria of every topology with random nx/ny/guards (incl. strongly unequal legs, start_at_upper_outer); random size vectors through the executed "
                        "integer ladder; corpus grid files; distinct = agreeing distinct cases")
